@@ -185,6 +185,19 @@ impl Runtime for Solo {
     fn window(&self, buf: usize, kind: WindowKind, open: bool, start: usize, end: usize, cap: usize) {
         self.state().windows.event(buf, kind, open, start, end, cap);
     }
+    fn moved(&self, _buf: usize, n: usize) {
+        SOLO_MOVED.with(|m| m.set(m.get() + n as u64));
+    }
+}
+
+thread_local! {
+    static SOLO_MOVED: std::cell::Cell<u64> = const { std::cell::Cell::new(0) };
+}
+
+/// Samples/packets committed or consumed on any stream by the calling thread
+/// under a `Solo` runtime so far (monotonic).
+pub fn solo_moved() -> u64 {
+    SOLO_MOVED.with(|m| m.get())
 }
 
 // ---------------------------------------------------------------------------
